@@ -1,6 +1,6 @@
 """C10 - move iterator honours its size and filtering contracts."""
 from analysis.runner import rule
-from analysis.effects import upd_entries, acnorm, subterms
+from analysis.effects import canon, upd_entries, acnorm, subterms
 from analysis.facts import AnchorError
 from analysis import terms as T, k2
 from analysis.cfg import cfg_of
@@ -355,7 +355,7 @@ def r10(ctx):
                     old = T.get_path(base, pth)
                     w = val[3][0] if val[0] == "adt" else val
                     o = ("field", old, "0") if val[0] == "adt" else old
-                    writes.append(acnorm(w) == acnorm(("bin", "BitAnd", o, ("un", "Not", mask_w))))
+                    writes.append(canon(w) == canon(("bin", "BitAnd", o, ("un", "Not", mask_w))))
         ok &= writes == [True]
     ctx.ob("remove effect", ok and n_some >= 1, "remove does not turn each visited entry's `moves` into `moves & !mask`", site=site)
 
@@ -403,7 +403,7 @@ def r9(ctx):
             for pth, val in ents:
                 names = [e[2] for e in pth if e[0] == "f"]
                 if k_ == ("param", 0, "self") and names == ["index"]:
-                    idx_written = acnorm(val) == acnorm(("bin", "Add", ("field", slf, "index"), T.I(1, "usize")))
+                    idx_written = canon(val) == canon(("bin", "Add", ("field", slf, "index"), T.I(1, "usize")))
                     if not idx_written:
                         bad.append((f"path{li}:index", f"the cursor becomes {T.show(val)[:80]}"))
                 if k_ != ("param", 0, "self") and names == ["moves"] and any(e[0] == "i" for e in pth):
